@@ -341,7 +341,8 @@ def run(args) -> int:
         classical = L['hooks']['finish'] == 'cpl'
         if order != 0 and not classical:
             continue
-        exprs.append(f"run_case ML_{coqgen.ident(c['logic'])} {mlib.clist(mlib.cop(o) for o in c['ops'])} "
+        fn = 'run_case_fixed' if (classical and L.get('classical_fixed')) else 'run_case'
+        exprs.append(f"{fn} ML_{coqgen.ident(c['logic'])} {mlib.clist(mlib.cop(o) for o in c['ops'])} "
                      f"{mlib.cnats(r['cord'])} {mlib.cpord(r['pord'])} "
                      f"{mlib.clist(mlib.csent(s) for s in c['sents'])} {mlib.cnats(c['worlds'])}")
         keys.append((i, order))
